@@ -138,4 +138,49 @@ schur_spmv = Unit(
     assumptions=A_C18,
 )
 
-UNITS = [schur_apply, schur_spmv]
+
+CPR_T = r"""
+#include "orch_trace.h"
+int g_thrown;
+typedef struct cpr { mat *Fpp, *Scatter, *Smat; vec *rs, *rp, *xp; obj *S, *P; } cpr;   /* Smat: S->system_matrix() */
+#define ONE MATH_identity(V)
+#define ZERO MATH_zero(V)
+#define SP(k, M_, X_, Y_, A_, B_) (EV(k, T_SPMV, M_, X_, Y_, 0) && EVS(k, A_, B_, 0))
+void f_cpr_apply(const cpr *self, const vec *rhs_in, vec *x_p)
+__CPROVER_requires(__CPROVER_is_fresh(self, sizeof(*self)) && __CPROVER_is_fresh(rhs_in, sizeof(vec)) && __CPROVER_is_fresh(x_p, sizeof(vec)))
+__CPROVER_requires(__CPROVER_is_fresh(self->Fpp, sizeof(mat)) && __CPROVER_is_fresh(self->Scatter, sizeof(mat)) && __CPROVER_is_fresh(self->Smat, sizeof(mat)))
+__CPROVER_requires(__CPROVER_is_fresh(self->rs, sizeof(vec)) && __CPROVER_is_fresh(self->rp, sizeof(vec)) && __CPROVER_is_fresh(self->xp, sizeof(vec)))
+__CPROVER_requires(__CPROVER_is_fresh(self->S, sizeof(obj)) && __CPROVER_is_fresh(self->P, sizeof(obj)))
+__CPROVER_requires(UF_AXIOMS && g_nev == 0 && rhs_in->defined && rhs_in->id == 1 && x_p->id == 2 && self->rs->id == 3 && self->rp->id == 4 && self->xp->id == 5)
+__CPROVER_requires(self->Fpp->id == 11 && self->Scatter->id == 12 && self->Smat->id == 13 && self->S->id == 31 && self->P->id == 32)
+/* C15: rs, rp, xp hold whatever earlier applications left; x is output only */
+__CPROVER_assigns(*x_p, *self->rs, *self->rp, *self->xp, g_ev, g_nev)
+/* C18: x = S f; rs = f - A x; rp = Fpp rs; xp = P rp; x = x + Scatter xp */
+__CPROVER_ensures(x_p->defined && g_nev == 5 && EV(0, T_APPLY, 31, 1, 2, 0) && EV(1, T_RESIDUAL, 13, 1, 2, 3)
+   && SP(2, 11, 3, 4, ONE, ZERO) && EV(3, T_APPLY, 32, 4, 5, 0) && SP(4, 12, 5, 2, ONE, ONE))
+{
+  mat *const Fpp = self->Fpp, *const Scatter = self->Scatter; vec *const rs = self->rs, *const rp = self->rp, *const xp = self->xp;
+#define rhs (*rhs_in)
+#define x (*x_p)
+/*@CUT:body@*/
+#undef rhs
+#undef x
+}
+void h_f_cpr_apply(void) { const cpr *s; const vec *rhs; vec *x; f_cpr_apply(s, rhs, x); }
+"""
+cpr_apply = Unit(
+    name='cpr_apply', props=['C18', 'C15', 'C10'],
+    functions=['preconditioner::cpr::apply(rhs, x)'],
+    desc='CPR apply(): x = S f + Scatter P (Fpp (f - A S f)) as an exact call sequence',
+    cuts={'body': Cut('amgcl/preconditioner/cpr.hpp', r'void apply\(const Vec1 &rhs, Vec2 &&x\) const\s*(?=\{)',
+                      rules=[Rule(r'const auto (one|zero) =', r'const V \1 =', None, why='R-auto'),
+                             Rule(r'\bS->apply\((\w+), (\w+)\);', r'tr_apply(self->S, &(\1), &(\2));', None, why='member call -> C call'),
+                             Rule(r'\bP->apply\(\*(\w+), \*(\w+)\);', r'tr_apply(self->P, \1, \2);', None, why='member call -> C call'),
+                             Rule(r'S->system_matrix\(\)', '(*self->Smat)', None, why='member call'),
+                             UFArgs(r'spmv', None)])},
+    template=CPR_T, enforce='f_cpr_apply', replace=CALLEES, mode='loopfree', obj_bits=12, timeout=200,
+    assumptions=A_C18,
+    not_decided=['pressure-matrix assembly (first-row-of-inverse-diagonal-block weighting): floating-point block inverse', 'partial update of CPR', 'deflated solver projection'],
+)
+
+UNITS = [schur_apply, schur_spmv, cpr_apply]
